@@ -40,7 +40,7 @@ func TestVerif(t *testing.T) {
 				Quote:      func(e int) string { return fmt.Sprintf("%d", e) },
 			}
 			if long {
-				vmodel.CheckSetsLong(c, api, func(i int) int { return i })
+				vmodel.CheckSetsLong(c, api, func(i int) int { return (i - 200) * 7 } /* negative, zero and positive elements, increasing */)
 				return
 			}
 			vmodel.CheckSets(c, api)
